@@ -22,7 +22,7 @@ def one(name):
             return name, {"patch": 3}, {}
         res, outs = {}, {}
         for pid in pids:
-            r = subprocess.run(["/verif/check", pid, "--repo", tmp, "--no-evidence"], stdout=subprocess.PIPE, stderr=subprocess.STDOUT)
+            r = subprocess.run(["/verif/check", pid, "--repo", tmp, "--no-evidence", "--strict"], stdout=subprocess.PIPE, stderr=subprocess.STDOUT)
             if r.returncode != 0:
                 res[pid] = r.returncode
                 outs[pid] = [l for l in r.stdout.decode().splitlines() if not l.startswith("VIOLATION ") and not l.startswith("KNOWN-FINDING")][:6]
